@@ -77,7 +77,12 @@ def run(check, tier, seed, jobs, evid_path):
         samples.append({"config": cfg, "facts": facts})
         # in-family part, short native run: really move the values across threads
         for mode, iters in (("tokio", 20 if tier == "quick" else 200), ("threads", 10 if tier == "quick" else 60), ("xthread", 40 if tier == "quick" else 400)):
-            q = subprocess.run([check.bin_path(cfg, "fgv_san"), "--mode", mode, "--seed", str(seed), "--iters", str(iters), "--max-n", "7"], cwd=check.VERIF, env=check.ENV, stdout=subprocess.PIPE, stderr=subprocess.PIPE, text=True)
+            try:
+                q = subprocess.run([check.bin_path(cfg, "fgv_san"), "--mode", mode, "--seed", str(seed), "--iters", str(iters), "--max-n", "7"], cwd=check.VERIF, env=check.ENV, stdout=subprocess.PIPE, stderr=subprocess.PIPE, text=True, timeout=240)
+            except subprocess.TimeoutExpired:
+                # a hang of the threaded workload is some other property's business (C04/C05); here it only means "not decided"
+                inconclusive.append(f"config {cfg}: threaded workload {mode} did not finish within the 240 s watchdog")
+                continue
             m = re.search(r"SAN-SUMMARY .*executions=(\d+)", q.stdout)
             if not m:
                 inconclusive.append(f"config {cfg}: threaded workload {mode} printed no summary: {q.stdout[-300:]} {q.stderr[-300:]}")
